@@ -518,6 +518,15 @@ def b_eig(ctx):
                         ctx.count('sign-indicator-zero-under-rounding')
                         continue
                     ctx.fail('C17:rotation', f'{name} changes under rotation: {v0} vs {v1} for {t.tolist()}', {'tensor': t.tolist(), 'q': q.tolist()})
+    # components given as python ints / an integer array: the same numbers as for floats
+    for ti in ((100, 0, 0, 50, 0, 0), (-300, 50, -50, 40, -20, 10), (0, 0, 0, 0, 0, 7)):
+        for name in ('mises', 'tresca', 'max_principal', 'min_principal', 'abs_max_principal', 'signed_mises_trace', 'signed_tresca_abs_max_principal'):
+            f = getattr(eqs, name)
+            vi, vf = float(f(*ti)), float(f(*[float(x) for x in ti]))
+            va = np.asarray(f(*[np.array([x, x]) for x in ti]), dtype=float)
+            ctx.case(True, key=('int', ti, name))
+            if not (vi == vf or abs(vi - vf) <= 1e-12 * abs(vf)) or not np.allclose(va, vf, rtol=1e-12, atol=0):
+                ctx.fail('C17:number-types', f'{name}{ti}: {vi} for ints, {vf} for floats, {va.tolist()} for an integer array', {'tensor': list(ti)})
     ctx.sample({'tensor': tens[11].tolist(), 'mises': float(eqs.mises(*tens[11])), 'tresca': float(eqs.tresca(*tens[11]))})
     ctx.exhaustive = False
 
